@@ -1258,13 +1258,23 @@ class ClientThread(threading.Thread):
                 rec, res = self.call('result', lambda: c.result(tid))
                 if rec['outcome'][0] == 'ok':
                     rec['outcome'][1] = summarize(res)
-        # later calls on the same Compiler object
+        # later calls on the same Compiler object: a call issued right after the kill may still be served (the
+        # runtime has not read the EOF yet); status() is repeated until it raises, which must happen within T_RAISE
         if sc.get('kill'):
             self.killed.wait()
             if tid is not None:
-                rec, st = self.call('later_status', lambda: c.status(tid))
-                if rec['outcome'][0] == 'ok':
+                t_first = time.time()
+                while True:
+                    rec, st = self.call('later_status', lambda: c.status(tid))
+                    if rec['outcome'][0] != 'ok':
+                        break
                     rec['outcome'][1] = getattr(st, 'name', repr(st))
+                    if time.time() - t_first > T_RAISE:
+                        rec['never_raised'] = True
+                        break
+                    self.log.pop()
+                    time.sleep(0.2)
+                rec['t0'] = t_first
             rec, t2 = self.call('later_submit', lambda: c.submit(circ, wf))
             if rec['outcome'][0] == 'ok':
                 rec['outcome'][1] = 'task_id'
@@ -1336,7 +1346,7 @@ def run_scenario(sc: dict) -> dict:
             if at and at != 'before_submit':
                 nflags = k.get('count', 1)
                 t0 = time.time()
-                while time.time() - t0 < 75:
+                while time.time() - t0 < 150:
                     g = flags(d, at + '.*')
                     if k.get('not_root'):
                         rootf = flags(d, 'mark0.*')
@@ -1348,6 +1358,9 @@ def run_scenario(sc: dict) -> dict:
                     raise RuntimeError(f'crash point {at} never reached (setup)')
             time.sleep(k.get('delay', 0.0))
             v = pick_victim(rt, d, k['who'], victims)
+            if (not v or not alive(v)) and victims:
+                out['notes'].append(f'second victim {k["who"]} already gone (the runtime went down after the first kill)')
+                continue
             if not v:
                 raise RuntimeError(f'no victim for {k} (setup)')
             if k.get('stop_until'):
@@ -1355,7 +1368,13 @@ def run_scenario(sc: dict) -> dict:
                 if not wait_flag(d, k['stop_until'] + '.*', 120):
                     raise RuntimeError('stop_until flag never appeared (setup)')
                 time.sleep(k.get('stop_delay', 1.0))
-            os.kill(v, signal.SIGKILL)
+            try:
+                os.kill(v, signal.SIGKILL)
+            except ProcessLookupError:
+                if not victims:
+                    raise
+                out['notes'].append('second victim exited on its own before the kill')
+                continue
             victims.append(v)
             t_kill = time.time()
             out['notes'].append(f'killed {k["who"]} pid={v} at {at} flags={len(flags(d, "*"))}')
@@ -1385,7 +1404,7 @@ def run_scenario(sc: dict) -> dict:
                     out['problems'].append(dict(symptom='client_slow', call=rec['call'], client=ct.idx, latency=lat))
                 if o and o[0] == 'ok' and rec['call'] in ('result', 'later_result') and o[1] != 'complete':
                     out['problems'].append(dict(symptom='partial_result', call=rec['call'], client=ct.idx, got=o[1]))
-                if o and o[0] == 'ok' and kills and rec['call'] in ('later_status', 'later_submit', 'later_result'):
+                if o and o[0] == 'ok' and kills and (rec.get('never_raised') or rec['call'] == 'later_result'):
                     out['problems'].append(dict(symptom='call_succeeds_after_crash', call=rec['call'], client=ct.idx, got=o[1]))
                 if o and o[0] == 'ok' and o[1] in (None, 'NONE'):
                     out['problems'].append(dict(symptom='call_returns_none', call=rec['call'], client=ct.idx))
@@ -1767,7 +1786,7 @@ def run(ctx):
         'FIFO links: what a process sent before it died is delivered before the EOF (TCP on loopback)',
         'uuid4 task ids of different submissions never collide',
         'crashes of the server itself and of managers that manage other managers are outside the proved theorem '
-        '(the latter is refuted: C14_crash_propagates_refuted_nested, known finding D14)',
+        '(the latter is refuted: C14_crash_propagates_refuted_nested, known finding C14-F1)',
         'ordinary traffic (SUBMIT_BATCH, WAITING, UPDATE, LOG, CANCEL...) is abstract in the model: any live node may send it; '
         'its handlers are exercised in the co-simulation but only their sends/closes are compared',
         'client call outcomes are compared up to the exception class (RuntimeError) and the returned payload',
@@ -1795,9 +1814,9 @@ def run(ctx):
 
     # ---- co-simulation -------------------------------------------------------------------------------------
     t0 = time.time()
-    nproc = ctx.n(3, 10)
-    per = ctx.n(45, 260)
-    budget_s = ctx.n(40, 600)
+    nproc = ctx.n(4, 10)
+    per = ctx.n(60, 260)
+    budget_s = ctx.n(80, 600)
     procs = [launch_cosim(ctx.seed * 1000 + w, per, budget_s) for w in range(nproc)]
     for c in corpus:
         if c.get('kind') == 'schedule':
@@ -1829,7 +1848,7 @@ def run(ctx):
     ctx.cov['cosim_random_schedules'] = done
     ctx.cov['cosim_wall_s'] = round(time.time() - t0, 1)
 
-    # ---- the outgoing-thread shutdown path (known finding D15) ------------------------------------------
+    # ---- the outgoing-thread shutdown path (known finding C14-F2) ------------------------------------------
     try:
         r = outgoing_thread_oracle()
         ctx.case(('outgoing_thread_oracle',), nontrivial=True)
@@ -1897,7 +1916,7 @@ def run(ctx):
                                                 'client_recv', 'srv_submit/request/status/result']
     ctx.cov['uncovered'] = ['server crash', 'crash during start-up handshake (spawn_workers/connect_to_managers)',
                             'SIGINT path', 'Compiler.close()/__del__ against a live server', 'wall-clock bounds (fault runs only)',
-                            'ECONNRESET seen first by the outgoing thread (known finding D15, in-process oracle only)']
+                            'ECONNRESET seen first by the outgoing thread (known finding C14-F2, in-process oracle only)']
 
 
 def replay(ctx, data):
